@@ -179,7 +179,13 @@ def run_case(case):
         mods3 = [mi + 0.5 * s, mi - 0.25 * s]
         want3 = np.array([[ofa.linear_score(mods3[i], mi.astype(float), uv, np.asarray(stats[j].n), np.asarray(stats[j].sum_px), stats[j].t, None, False)
                            for j in range(N)] for i in range(2)])
-        for pres, arg in (("array3", np.array(mods3)), ("list_of_arrays", [m_.copy() for m_ in mods3])):
+        mach3 = []
+        for mm in mods3:
+            g3 = GMMMachine(C)
+            g3.means = mm.copy()
+            g3.variances = uv.copy()
+            mach3.append(g3)
+        for pres, arg in (("array3", np.array(mods3)), ("list_of_arrays", [m_.copy() for m_ in mods3]), ("machines", mach3)):
             got3 = np.asarray(linear_scoring(arg, ubm3, stats, 0, False))
             c.close(got3, want3, "integer_ubm_means", f"{pres}: UBM means held in an integer array, fractional model means", {}, scale=scale)
             c.transitions += 1
